@@ -175,8 +175,69 @@ fn unformattable_values(cfg: &Cfg, rep: &mut Report) {
     });
 }
 
+/// A datum whose text is empty (an empty field of an `*IDN?`-style answer, given as empty character data) is still a
+/// data element: its separators stay (`ACME,X1,,1.0`, `NAME ,3`). Only judged when the message succeeds.
+fn empty_fields(cfg: &Cfg, rep: &mut Report) {
+    run_cases(cfg, "empty-field", cfg.n(8, 4_000, 200_000), rep, |rng, ctx| {
+        bump(ctx, 1);
+        let e = || Val::Chr(b"");
+        let scripts = vec![
+            Script { id: 0, omnivore: true, emit: vec![Val::U8(1)], ..Default::default() },
+            Script { id: 1, omnivore: true, emit: vec![Val::Chr(b"ACME"), Val::Chr(b"X1"), e(), Val::Chr(b"1.0")], ..Default::default() },
+            Script { id: 2, omnivore: true, headers: vec![b"NAME"], emit: vec![e(), Val::U8(3)], ..Default::default() },
+            Script { id: 3, omnivore: true, emit: vec![e(), Val::U8(2)], ..Default::default() },
+            Script { id: 4, omnivore: true, emit: vec![Val::U8(4), e()], ..Default::default() },
+            Script { id: 5, omnivore: true, emit: vec![Val::Str(b""), e(), e(), Val::Arb(b""), Val::Utf8("")], ..Default::default() },
+        ];
+        let specs = vec![Spec::leaf(b"ONE", false, 0), Spec::leaf(b"*IDN", false, 1), Spec::leaf(b"NAME", false, 2), Spec::leaf(b"FRONt", false, 3), Spec::leaf(b"TAIL", false, 4), Spec::leaf(b"MIX", false, 5)];
+        let built: Built<Dev, Script> = Built::new(&specs, scripts.clone());
+        let heads: [&[u8]; 6] = [b"ONE", b"*IDN", b"NAME", b"FRON", b"TAIL", b"MIX"];
+        let mut msg: Vec<u8> = Vec::new();
+        let mut units = vec![];
+        let n = 1 + rng.usize(4);
+        let mut has_empty = false;
+        for u in 0..n {
+            let h = if u == 0 && !rng.chance(1, 3) { rng.usize(6) } else { rng.usize(6) };
+            has_empty |= h != 0;
+            if u > 0 {
+                msg.push(b';');
+            }
+            msg.extend_from_slice(heads[h]);
+            let q = rng.chance(4, 5);
+            if q {
+                msg.push(b'?');
+            }
+            units.push((h, q));
+        }
+        if !has_empty {
+            return;
+        }
+        let ending = *rng.pick(&ENDINGS);
+        render_ending(rng, ending, &mut msg);
+        let plan = Plan { msg, units, ending };
+        let (want, _, _) = expected_response(&plan, &scripts);
+        ctx.nontrivial(hash_bytes(&plan.msg));
+        let mut dev = Dev::new();
+        let mut c = Context::default();
+        let (r, got) = if rng.bool() {
+            let cr = run_cap(512, built.root(), &plan.msg, &mut dev, &mut c).unwrap();
+            (cr.result, cr.buf)
+        } else {
+            let mut resp: Vec<u8> = Vec::new();
+            let r = built.root().run(&plan.msg, &mut dev, &mut c, &mut resp);
+            (r, resp)
+        };
+        match r {
+            Err(e) => ctx.count(&format!("empty-field.message-fails-with.{}(no verdict)", e.get_code())),
+            Ok(()) if got == want => ctx.count("empty-field.separators-kept"),
+            Ok(()) => ctx.violation("C10:separator-of-an-empty-datum-missing-or-misplaced", jobj(&[("message", jbytes(&plan.msg)), ("expected", jbytes(&want)), ("observed", jbytes(&got))])),
+        }
+    });
+}
+
 pub fn run(cfg: &Cfg, rep: &mut Report) {
     unformattable_values(cfg, rep);
+    empty_fields(cfg, rep);
     let ntrees = cfg.n(6, 60_000, 1_200_000);
     let nmsg = cfg.n(8, 100, 250) as usize;
     run_cases(cfg, "framing", ntrees, rep, |rng, ctx| {
